@@ -31,6 +31,7 @@ static char leaf[2][2];
 static SS *expv;
 static void L(const char *s) { while (*s) { *expv += *s; ++s; } }
 static void E(unsigned i) { StringUtils::EscapeHTMLSpecialChars(*expv, &leaf[i][0], SizeT{LEAFN}); }
+static bool leaf_less(unsigned i, unsigned j) { return StringUtils::IsLess(&leaf[i][0], &leaf[j][0], SizeT{LEAFN}, SizeT{LEAFN}, false); }
 static void R(unsigned i) { expv->Write(&leaf[i][0], SizeT{LEAFN}); }
 
 static void build(V &v) {
@@ -45,6 +46,10 @@ static void build(V &v) {
     v += static_cast<V &&>(s0); v += static_cast<V &&>(s1);
 #elif VAL == 4    /* {"p": "<{0}|{1}>", "a": S0, "b": S1}   super-variable phrase with specials */
     v["p"] = "<{0}|{1}>"; v["a"] = static_cast<V &&>(s0); v["b"] = static_cast<V &&>(s1);
+#elif VAL == 6    /* [[S0, S1]]   array of arrays (nested loops, sort on a working copy) */
+    { V in; in += static_cast<V &&>(s0); in += static_cast<V &&>(s1); v += static_cast<V &&>(in); }
+#elif VAL == 7    /* {"n": [1, 2, 3], "a": S0, "b": S1}   numbers for conditions inside loops */
+    { V in; in += SizeT64{1}; in += SizeT64{2}; in += SizeT64{3}; v["n"] = static_cast<V &&>(in); } v["a"] = static_cast<V &&>(s0); v["b"] = static_cast<V &&>(s1);
 #else             /* {"<k>": [S0], "j": [S1]}      object members that are not printable: the loop KEY is printed */
     { V o; o += static_cast<V &&>(s0); v["<k>"] = static_cast<V &&>(o); }
     { V o; o += static_cast<V &&>(s1); v["j"] = static_cast<V &&>(o); }
@@ -61,6 +66,10 @@ static bool leaves_intact(const V &v) {
 #elif VAL == 3
     a = v.GetValue(SizeT{0}); b = v.GetValue(SizeT{1});
 #elif VAL == 4
+    a = v.GetValue("a", SizeT{1}); b = v.GetValue("b", SizeT{1});
+#elif VAL == 6
+    { const V *in = v.GetValue(SizeT{0}); if (in) { a = in->GetValue(SizeT{0}); b = in->GetValue(SizeT{1}); } }
+#elif VAL == 7
     a = v.GetValue("a", SizeT{1}); b = v.GetValue("b", SizeT{1});
 #else
     { const V *o = v.GetValue("<k>", SizeT{3}); if (o) a = o->GetValue(SizeT{0}); const V *o2 = v.GetValue("j", SizeT{1}); if (o2) b = o2->GetValue(SizeT{0}); }
